@@ -1,8 +1,9 @@
 ------------------------------ MODULE MCH5Store ------------------------------
 EXTENDS H5Store
 PathsQ == {"/a", "/g/b"}
-ShapesQ == {<<4>>, <<2, 3>>, <<2, 1, 2>>}
-ShapesT == {<<5>>, <<3, 3>>, <<2, 3, 2>>, <<1, 4>>}
+\* includes shapes that are rank-reduced prefixes of others (<<2>> of <<2,3>>, <<2,1>> of <<2,1,2>>)
+ShapesQ == {<<4>>, <<2>>, <<2, 3>>, <<2, 1>>, <<2, 1, 2>>}
+ShapesT == {<<5>>, <<3>>, <<3, 3>>, <<2, 3>>, <<2, 3, 2>>, <<1, 4>>}
 Lay3 == {"contig", "stepped", "offset"}
 Lay4 == {"contig", "stepped", "offset", "tail"}
 =============================================================================
